@@ -116,7 +116,7 @@ func cmdFunc(args []string) int {
 			}
 			obls = f
 		}
-		res := solveAll(obls, work, *sec, *sec, *thorough, 16)
+		res := solveAll(obls, work, *sec, *sec, *thorough, envInt("GOWP_JOBS", 8))
 		for i, o := range obls {
 			r := res[i]
 			ok := r.Status == "unsat"
@@ -257,7 +257,7 @@ func cmdCheck(args []string) int {
 			noRetry[o.Name] = true
 		}
 	}
-	res := solveAll(obls, work, quickSec, slowSec, thorough, 16)
+	res := solveAll(obls, work, quickSec, slowSec, thorough, envInt("GOWP_JOBS", 8))
 	tSolve := time.Since(t0).Seconds() - tGen
 	fmt.Fprintf(os.Stderr, "gowp: load+generate %.1fs, render+solve %.1fs\n", tGen, tSolve)
 	var reports []oblReport
@@ -494,4 +494,15 @@ func (k *knownFindings) match(prop, obligation string) string {
 		}
 	}
 	return ""
+}
+
+func envInt(name string, def int) int {
+	if v := os.Getenv(name); v != "" {
+		n := 0
+		fmt.Sscanf(v, "%d", &n)
+		if n > 0 {
+			return n
+		}
+	}
+	return def
 }
